@@ -52,6 +52,10 @@ func runSolver(s solverSpec, file string, timeoutS int) (status string, out stri
 	ctx, cancel := context.WithTimeout(context.Background(), time.Duration(timeoutS+2)*time.Second)
 	defer cancel()
 	argv := s.argv(file, timeoutS)
+	if seed := os.Getenv("GOVC_SEED"); seed != "" && strings.HasPrefix(argv[0], "z3") {
+		// stability experiments: perturb the solver's heuristics
+		argv = append(argv[:len(argv)-1], "smt.random_seed="+seed, "sat.random_seed="+seed, argv[len(argv)-1])
+	}
 	cmd := exec.CommandContext(ctx, argv[0], argv[1:]...)
 	var buf bytes.Buffer
 	cmd.Stdout = &buf
@@ -60,7 +64,19 @@ func runSolver(s solverSpec, file string, timeoutS int) (status string, out stri
 	_ = cmd.Run()
 	ms = time.Since(t0).Milliseconds()
 	out = buf.String()
-	first := strings.TrimSpace(strings.SplitN(out, "\n", 2)[0])
+	// the verdict is the first line that is one (solvers print warnings before it)
+	first := ""
+	for _, l := range strings.Split(out, "\n") {
+		l = strings.TrimSpace(l)
+		if l == "unsat" || l == "sat" || l == "unknown" || l == "timeout" {
+			first = l
+			break
+		}
+		if l == "" || strings.HasPrefix(l, "WARNING") || strings.HasPrefix(l, "(warning") || strings.HasPrefix(l, ";") {
+			continue
+		}
+		break
+	}
 	switch first {
 	case "unsat", "sat", "unknown":
 		status = first
